@@ -630,6 +630,9 @@ func c10g(c *Ctx) {
 		if len(rs) != 1 {
 			continue
 		}
+		if live, _ := g.ReachableFromEntry(Cut{}, atSite(r)); live == nil {
+			continue // a dead branch renders nothing
+		}
 		be, ok := ast.Unparen(rs[0]).(*ast.BinaryExpr)
 		if !ok || be.Op != token.ADD {
 			continue
@@ -674,6 +677,9 @@ func c10g(c *Ctx) {
 		row := tileRow{pub: pub, level: "*"}
 		for _, p := range pp.Calls(Callee{pkgTlog, "", "ParseTilePath"}) {
 			be, ok := ast.Unparen(p.Call.Args[0]).(*ast.BinaryExpr)
+			if live, _ := pp.Graph().ReachableFromEntry(Cut{}, atSite(p)); live == nil {
+				continue // a dead branch parses nothing
+			}
 			if ok && be.Op == token.ADD && objOf(pi, be.Y) == restObj {
 				row.tl, _ = constString(pi, be.X)
 				// level override in the same branch: `t.L = k` between this call and the return
